@@ -27,6 +27,8 @@ BAD = "/nonexistent/missing.o"
 NONELF = os.path.join(common.REPO, "README.md")
 
 RAISE = '"/nonexistent/x" dwopen'
+DIES = '"%s" dwopen entry ?TAG_pointer_type' % V1
+DIE_RENDER = {}          # offset -> (full dump, header form) as the CLI prints that DIE
 QUERIES = [
     ("one", "1 drop 7"),
     ("many", "(1, 2, 3)"),
@@ -58,6 +60,8 @@ ARGSETS = [
     [("--a", "[1, 2]")],
     [("--a", "7"), ("--a", "(1, 2)")],                         # single-valued first, multi-valued later
     [("-a", "x"), ("--a", "(1, 2, 3)"), ("-a", "z")],
+    [("--a", DIES)],                                           # values that are DIEs (header rendered into a string first)
+    [("--a", "(1, 2)"), ("--a", DIES)],
 ]
 OPTSETS = ["".join(c) for k in range(0, 6) for c in itertools.combinations("qscHh", k)]
 
@@ -104,6 +108,8 @@ class Interner:
     def get(self, v):
         if v["t"] == "dwarf":
             full, hdr = v["show"], v["show"][len('<Dwarf "'):-2]
+        elif v["t"] == "die":
+            full, hdr = DIE_RENDER[v["off"]]
         else:
             full, hdr = render(v), render(v, True)
         k = (full, hdr)
@@ -112,6 +118,33 @@ class Interner:
             self.ids[k] = i
             self.full[i], self.header[i] = full, hdr
         return self.ids[k]
+
+
+def run_cli_fifo(pre, post, text, fifo):
+    """the query read through a named pipe (not seekable)"""
+    import threading
+    if not os.path.exists(fifo):
+        os.mkfifo(fifo)
+
+    def feed():
+        try:
+            fd = os.open(fifo, os.O_WRONLY)
+            os.write(fd, text)
+            os.close(fd)
+        except OSError:
+            pass
+    t = threading.Thread(target=feed, daemon=True)
+    t.start()
+    r = run_cli(pre + ["-f", fifo] + post)
+    if t.is_alive():
+        # the binary never opened the pipe: unblock the writer
+        try:
+            fd = os.open(fifo, os.O_RDONLY | os.O_NONBLOCK)
+            t.join(2)
+            os.close(fd)
+        except OSError:
+            pass
+    return r
 
 
 def run_cli(argv, stdin=None):
@@ -149,6 +182,14 @@ def run(ctx):
             argvals[e] = None
         else:
             argvals[e] = [s[0] for s in r.results]       # TOS of each yielded stack
+    # how the CLI prints the DIEs that occur as argument values: the full dump from a plain run of
+    # the binary (value rendering is C20's subject), the header form is `[offset] tag`
+    for e, vs in argvals.items():
+        for k, v in enumerate(vs or []):
+            if v["t"] == "die" and v["off"] not in DIE_RENDER:
+                rc_, out_, err_ = run_cli(["-e", "[%s] elem ?(pos == %d)" % (e, k)])
+                lab = zw.run_cases([zw.enc("[%s] elem ?(pos == %d) label" % (e, k))])[0].results[0][0]["show"]
+                DIE_RENDER[v["off"]] = (out_.rstrip("\n"), "[%x] %s" % (v["off"], lab[len("DW_TAG_"):] if lab.startswith("DW_TAG_") else lab))
     # combinations and their executions
     configs = [(q, fs, a) for q in range(len(QUERIES)) for fs in range(len(FILESETS)) for a in range(len(ARGSETS))]
     lib_cases, lib_keys = [], []
@@ -309,6 +350,8 @@ def run(ctx):
         variants = {
             "-f FILE": run_cli(opts + aa + ["-f", qf] + FILESETS[fs]),
             "-f -": run_cli(opts + aa + ["-f", "-"] + FILESETS[fs], stdin=QUERIES[q][1].encode()),
+            "-f /dev/stdin (a pipe)": run_cli(opts + aa + ["-f", "/dev/stdin"] + FILESETS[fs], stdin=QUERIES[q][1].encode()),
+            "-f FIFO": run_cli_fifo(opts + aa, FILESETS[fs], QUERIES[q][1].encode(), os.path.join(tmpd, "fifo%d" % (k % 16))),
             "positional": run_cli(opts + aa + ["--", QUERIES[q][1]] + FILESETS[fs]),
             "files first": run_cli(FILESETS[fs] + opts + aa + ["-e", QUERIES[q][1]]),
             "--a for -a": run_cli(opts + [x for f, t in ARGSETS[a] for x in (("--a", arg_expr(f, t)) if f == "-a" else (f, t))] + ["-e", QUERIES[q][1]] + FILESETS[fs]),
@@ -331,7 +374,7 @@ def run(ctx):
     ctx.cov.update({
         "evaluations": evaluations,
         "distinct_nontrivial": len(invs),
-        "rule": "option subsets of {-q,-s,-c,-H,-h} (all 32) x %d queries (0/1/many results, multi-value stacks, compile errors, exceptions after 0 and 2 results, an exception for one combination only, library diagnostics) x %d file lists (none, valid, unreadable, non-ELF, repeated) x %d -a/--a lists (0-3 values each, a value-less one, one that does not compile); %s of the %d invocations; each compared on stdout, driver lines of stderr and exit status with the extracted model fed by the library driver's per-combination results; a sample re-run in 6 equivalent spellings" % (len(QUERIES), len(FILESETS), len(ARGSETS), "%d (every query/files/arguments configuration under two random option sets)" % len(invs) if quick else "all", len(OPTSETS) * len(configs)),
+        "rule": "option subsets of {-q,-s,-c,-H,-h} (all 32) x %d queries (0/1/many results, multi-value stacks, compile errors, exceptions after 0 and 2 results, an exception for one combination only, library diagnostics) x %d file lists (none, valid, unreadable, non-ELF, repeated) x %d -a/--a lists (0-3 values each, a value-less one, one that does not compile, DIE-valued ones); %s of the %d invocations; each compared on stdout, driver lines of stderr and exit status with the extracted model fed by the library driver's per-combination results; a sample re-run in 8 equivalent spellings (incl. the query read from a pipe and from a FIFO)" % (len(QUERIES), len(FILESETS), len(ARGSETS), "%d (every query/files/arguments configuration under two random option sets)" % len(invs) if quick else "all", len(OPTSETS) * len(configs)),
         "samples": [argv_for(*invs[0]), argv_for(*invs[len(invs) // 2])],
         "status_histogram": hist,
         "traces_validated_against_impl": evaluations,
